@@ -341,6 +341,7 @@ def jobs_for(prop, tier, seed):
         add(["base", "dbg"], "moves", [(5, moved(stack_exec(n=60))), (3, moved(stack_replay_exec(), 0.05))])
     elif prop == "C07":
         add(["rel", "base", "dbg", "f16"], "iter", [(30, iter_exec(n=70))])
+        add(["base", "dbg"], "moves", [(8, moved(iter_exec(n=50), 0.08))])
     elif prop == "C12":
         add(["rel", "base", "dbg"], "everypos", [(2, move_all_positions(pool_exec(n=12))), (2, move_all_positions(coll_exec(n=12))),
                                                  (2, move_all_positions(stack_exec(n=12))), (1, move_all_positions(iter_exec(n=10)))])
